@@ -2,7 +2,10 @@ package main
 
 // e1_props.go — per-property configurations of the lock-step model monitor.
 
-import "time"
+import (
+	"fmt"
+	"time"
+)
 
 func e1Plan(quick, thorough int) func(string) []Plan {
 	return func(tier string) []Plan {
@@ -138,13 +141,19 @@ func init() {
 		}
 		if p.id == "C12" {
 			mp.add(e2PhaseFor("C12", e2Oracles{keys: true}))
-			mp.add(racePlan(4, 40), func(w *W, idx int) { keyMapRound(w, idx) })
+			mp.add(racePlan(4, 40), func(w *W, idx int) {
+				withWatchdog(w, idx, fmt.Sprintf("E3:key-map:round%d", idx), 10*time.Minute, func() { keyMapRound(w, idx) })
+			})
 		}
 		if p.id == "C03" {
-			mp.add(racePlan(4, 40), func(w *W, idx int) { indexBuildRound(w, idx) })
+			mp.add(racePlan(4, 40), func(w *W, idx int) {
+				withWatchdog(w, idx, fmt.Sprintf("E3:index-build-beside-writers:round%d", idx), 10*time.Minute, func() { indexBuildRound(w, idx) })
+			})
 		}
 		if p.id == "C11" {
-			mp.add(racePlan(6, 60), func(w *W, idx int) { insertRound(w, idx) })
+			mp.add(racePlan(6, 60), func(w *W, idx int) {
+				withWatchdog(w, idx, fmt.Sprintf("E3:insert-ownership:round%d", idx), 10*time.Minute, func() { insertRound(w, idx) })
+			})
 		}
 		register(&Property{
 			ID: p.id, Level: "exploration", Rule: p.rule,
